@@ -426,7 +426,8 @@ L1 = {
     "C10": {"quick": [("MC_Store", "MC_Store_fixed.cfg", 12)], "thorough": [("MC_Store", "MC_Store_fixed_t.cfg", 14)]},
     "C12": {"quick": [("MC_Store", "MC_Store_fixed.cfg", 12)], "thorough": [("MC_Store", "MC_Store_fixed_t.cfg", 14)]},
     "C18": {"quick": [("MC_Index", "MC_Index.cfg", 8)], "thorough": [("MC_Index", "MC_Index_t.cfg", 14)]},
-    "C20": {"quick": [("MC_Registry", "MC_Registry.cfg", 12)], "thorough": [("MC_Registry", "MC_Registry_t.cfg", 14)]},
+    "C20": {"quick": [("MC_Registry", "MC_Registry.cfg", 12), ("MC_System", "MC_System.cfg", 12)],
+            "thorough": [("MC_Registry", "MC_Registry_t.cfg", 14), ("MC_System", "MC_System_t.cfg", 14)]},
     "C16": {"quick": [("MC_DamLev", "MC_DamLev.cfg", 12), ("MC_DamLev", "MC_DamLev_hist.cfg", 12)],
             "thorough": [("MC_DamLev", "MC_DamLev_t.cfg", 14), ("MC_DamLev", "MC_DamLev_hist_t.cfg", 14)]},
     "C17": {"quick": [("MC_Jaccard", "MC_Jaccard.cfg", 12), ("MC_Jaccard", "MC_Jaccard_set.cfg", 12)],
